@@ -1124,6 +1124,8 @@ fn gen_op(rng: &mut Rng, h: &Hist, prop: Prop) -> Op {
             6 => Op::ValidateHolder { c, n: 0, api: Api::Direct, sigs: SigVariant::Valid, fresh_content: false, register: false },
             7 => Op::Revoke { c, n: rng.below(2), api: pick_api(rng) },
             8 => Op::CheckFutureSecret { c, n: rng.below(3), api: pick_api(rng) },
+            // node-level histories also forget channels that were never set up
+            _ if matches!(prop, Prop::C10 | Prop::C11) && rng.chance(1, 3) => Op::ForgetChannel { c },
             _ => Op::Restart,
         };
     }
